@@ -58,6 +58,8 @@ def corpus():
         # two bases: the first base's merged tables win over the MRO (known finding)
         "res|cls A H -;cls B S -;cls D A,B -;new d D;set d .foo i1;cls E B,A -;new e E;set e .foo i1",
         "res|cls A H x=Int@1,q_=Int@2;cls B A x=Str@3,q_=Str@4;cls C A -;cls D C,B -;new d D;set d .x sa;set d .qq sa",
+        # the shadow of an instance-level delegate is cached in the class (known finding)
+        "res|cls A H dg=Any@1;new a A;new b A;add a .w Deleg@5;get a .w_;get b .w_;set b .w_ i1;rem a .w;set a .w_ i1",
         # strict / private defaults, instance trait shadows and is removed again
         "res|cls A S -;cls B P -;new a A;new b B;get a .u;set a .u i1;del a .u;get b .u;get b ._u;set b ._u sa;"
         "get b ._u;add a .u Int@9;set a .u i3;get a .u;rem a .u;get a .u;set a .u i1",
@@ -176,8 +178,10 @@ def run_impl(case):
         real = out.rsplit(" g=", 1)[0]
         g = info["g"]
         tags.add(name_class(name))
-        if name.rstrip("_") in delegs:      # `v`, `v_`, `v__`, ...: each shadows the (cached) one before
-
+        stem = name.rstrip("_")
+        if stem in delegs and R.governing(o, stem)[0].kind == "delegate":
+            # `v`, `v_`, `v__`, ... where `v` is a delegate *for this object*: delegate access and the
+            # `name_` shadow rule of __prefix_trait__ are not in the property text (correspondence only)
             tags.add("delegate-rule(correspondence only)")
             if k == "add":
                 o.itraits[name] = R.decl_of_spec(words[3])
@@ -242,7 +246,7 @@ def run_impl(case):
         if mismatch is not None:
             sig = classify(k, name, info, real, g, d, route, late.get(type(info["obj"]), ()), over_value,
                            (type(info["obj"]), name) in written,
-                           any(len(c.bases) > 1 for c in o.cls.mro()))
+                           any(len(c.bases) > 1 for c in o.cls.mro()), stem in delegs and stem != name)
             tags.add("hit:" + sig.split(":")[0])
             hits.append(_hit(sig, mismatch, op=op))
             # one defect, one hit: continue from the value the object really holds
@@ -254,7 +258,7 @@ def run_impl(case):
     return " ; ".join(outs), hits, tags
 
 
-def classify(k, name, info, real, g, d, route, late_names, over_value, was_written, multi):
+def classify(k, name, info, real, g, d, route, late_names, over_value, was_written, multi, foreign_shadow):
     """Name the input class / call site of a deviation (known findings are matched on it)."""
     reading = k in ("get", "trt")
     if R.is_dunder(name) and route != "instance":
@@ -269,6 +273,9 @@ def classify(k, name, info, real, g, d, route, late_names, over_value, was_writt
         return "dunder:other:%s" % k
     if name in late_names:
         return "late-subclass-inherits-resolved-prefix-cache"
+    if foreign_shadow and route != "instance":
+        # `w_` resolved as the shadow of a delegate `w` that this object does not have (any more)
+        return "delegate-shadow:class-cache-outlives-instance-delegate"
     if multi and route != "instance":
         return "multiple-inheritance:merged-base-tables-not-mro"
     if k == "get" and info["pre"] is not R.MISSING and real == "val " + R.show_val(info["pre"]) \
